@@ -515,3 +515,696 @@ def known_index():
         for cl in ([m["class"]] if isinstance(m.get("class"), str) else list(m.get("class") or [])):
             idx[cl] = f
     return idx
+
+
+# ------------------------------------------------------------------ layer (b): projects
+
+STR_ENUM = {"name": "ItemColor", "base": "string", "values": ["red", "blue", "green"]}
+INT_ENUM = {"name": "ItemLevel", "base": "int", "values": ["1", "2", "3"]}
+FIELD_TYPES = ["string", "string", "int", "float64", "bool", "[]string", "[]int", "ItemColor", "ItemLevel", "*ItemBase",
+               "Item", "[]Item", "map[string]int", "int64"]
+
+DIVERGENT = {  # class -> (go type, validator) usable on parameters and fields
+    "bounds-mix": [("int", "gt=5,gte=3"), ("float64", "lte=9,lt=7")],
+    "enum-after-enum": [("string", "enum=a|b,enum=c"), ("string", "oneof=a b,enum=c")],
+    "enum-yaml-typing": [("string", "oneof=1 2 3"), ("string", "enum=true|false"), ("int", "oneof=010 7"),
+                         ("int", "enum=1|2")],
+    "length-parse": [("string", "min=+5")],
+    "zero-upper-length": [("string", "max=0"), ("[]string", "maxItems=0")],
+    "bad-number-exclusive": [("int", "gt=5,gt=abc")],
+    "bad-bool-unique": [("[]string", "uniqueItems=true,uniqueItems=yes")],
+    "oneof-all-invalid": [("int", "oneof=x y")],
+}
+
+
+def safe_validator(rng, ty):
+    """A validator string on which the two converters are proved to agree (guard = true for
+    oracles that print strings as strings)."""
+    rules = []
+    if rng.random() < 0.3:
+        rules.append("required")
+    if ty == "string":
+        r = rng.random()
+        if r < 0.3:
+            rules.append(rng.choice(FORMAT_RULES))
+        if r < 0.6:
+            a = rng.choice([1, 2, 3])
+            rules += rng.choice([["min=%d" % a], ["max=%d" % (a + 5)], ["min=%d" % a, "max=%d" % (a + 7)],
+                                 ["len=%d" % (a + 1)]])
+        elif r < 0.8:
+            rules.append(rng.choice(["oneof=a b c", "oneof=red", "enum=x|y", "oneof=alpha beta"]))
+        if rng.random() < 0.2:
+            rules.append("pattern=" + rng.choice(["^[a-z]+$", "^x", "[0-9]+"]))
+    elif ty in ("int", "int64", "uint32", "int8", "uint"):
+        a = rng.choice([0, 1, 5])
+        rules += rng.choice([["gte=%d" % a], ["gt=%d" % a], ["lte=%d" % (a + 50)], ["lt=%d" % (a + 9)],
+                             ["gte=%d" % a, "lte=%d" % (a + 20)], ["gt=%d" % a, "lt=%d" % (a + 30)],
+                             ["min=%d" % a, "max=%d" % (a + 3)], ["oneof=1 2 3"], ["gte=-5"], []])
+    elif ty in ("float64", "float32"):
+        rules += rng.choice([["gte=0.5"], ["gt=0", "lt=1"], ["lte=2.5"], ["min=1e-3"], ["oneof=1.5 2.5"], []])
+    elif ty.startswith("[]") and ty != "[]byte":
+        rules += rng.choice([["minItems=1"], ["maxItems=5"], ["minItems=1", "maxItems=9", "uniqueItems=true"],
+                             ["uniqueItems=false"], []])
+    elif ty == "bool":
+        pass
+    rng.shuffle(rules)
+    return ",".join(rules) or None
+
+
+def gen_type_library(rng, diverge):
+    """Struct ItemFull with generated fields (optionally embedding ItemBase)."""
+    fields = []
+    names = ["Name", "Age", "Score", "Tags", "Nums", "Color", "Level", "Ref", "Sub", "Subs", "M", "Big", "Flag", "Note"]
+    rng.shuffle(names)
+    for nm in names[: rng.choice([2, 3, 4, 6])]:
+        ty = rng.choice(FIELD_TYPES)
+        v = None
+        if ty in ("ItemColor", "ItemLevel"):
+            v = rng.choice([None, None, "required"])
+        elif not ty.startswith("*") and ty not in ("Item", "[]Item", "map[string]int"):
+            v = safe_validator(rng, ty)
+        fields.append({"name": nm, "type": ty, "json": rng.choice([nm.lower(), nm[0].lower() + nm[1:], None]),
+                       "validator": v, "descr": rng.choice(["", "The " + nm.lower()])})
+    if diverge:
+        cls = rng.choice(sorted(DIVERGENT))
+        ty, v = rng.choice(DIVERGENT[cls])
+        fields.append({"name": "Odd", "type": ty, "json": "odd", "validator": v, "descr": ""})
+    return {"embed": rng.random() < 0.5, "fields": fields, "descr": rng.choice(["", "Full thing"])}
+
+
+def render_types(lib):
+    out = ["package types", ""]
+    for en in (STR_ENUM, INT_ENUM):
+        out += ["// Enum %s" % en["name"], "type %s %s" % (en["name"], en["base"]), "", "const ("]
+        for i, val in enumerate(en["values"]):
+            lit = json.dumps(val) if en["base"] == "string" else val
+            out.append("\t%sV%d %s = %s" % (en["name"], i, en["name"], lit))
+        out += [")", ""]
+    out += ["// Base part", "type ItemBase struct {", "\t// The id",
+            "\tID string `json:\"id\" validate:\"required,uuid\"`", "}", ""]
+    if lib["descr"]:
+        out.append("// " + lib["descr"])
+    out.append("type ItemFull struct {")
+    if lib["embed"]:
+        out.append("\tItemBase")
+    for f in lib["fields"]:
+        if f["descr"]:
+            out.append("\t// " + f["descr"])
+        tags = []
+        if f["json"]:
+            tags.append('json:"%s"' % f["json"])
+        if f["validator"]:
+            tags.append('validate:"%s"' % f["validator"])
+        out.append("\t%s %s%s" % (f["name"], f["type"], (" `" + " ".join(tags) + "`") if tags else ""))
+    out += ["}", ""]
+    return "\n".join(out)
+
+
+def gen_doc_project(rng, diverge):
+    p = P.gen_project(rng, {"security": True, "params": True, "multipkg": True, "enforce": False})
+    p["typelib"] = gen_type_library(rng, diverge and rng.random() < 0.4)
+    sites = []
+    for c in p["controllers"]:
+        for m in c["methods"]:
+            if rng.random() < 0.3:
+                m["ret"] = rng.choice(["ItemFull", "*ItemFull", "[]ItemFull"])
+            for prm in m["params"]:
+                if prm["ctx"]:
+                    continue
+                if prm["loc"] == "body":
+                    prm["type"] = rng.choice(["Item", "ItemFull"])
+                    continue
+                if prm["loc"] == "query" and not prm["slice"] and rng.random() < 0.2:
+                    prm["type"] = rng.choice(["ItemColor", "ItemLevel"])
+                    prm["validator"] = rng.choice([None, "required"])
+                    sites.append(prm)
+                    continue
+                ty = ("[]" if prm["slice"] else "") + prm["type"]
+                if rng.random() < 0.7:
+                    prm["validator"] = safe_validator(rng, ty)
+                sites.append(prm)
+    if diverge and sites:
+        prm = rng.choice(sites)
+        if prm["type"] in ("ItemColor", "ItemLevel"):
+            prm["validator"] = "oneof=red blue" if prm["type"] == "ItemColor" else "oneof=1 2"
+        else:
+            cls = rng.choice(sorted(DIVERGENT))
+            cands = [tv for tv in DIVERGENT[cls] if tv[0] == ("[]" if prm["slice"] else "") + prm["type"]]
+            if cands:
+                prm["validator"] = rng.choice(cands)[1]
+    if diverge and rng.random() < 0.3:
+        for f in p["typelib"]["fields"]:
+            if f["type"] == "ItemColor":
+                f["validator"] = "oneof=red blue"
+    return p
+
+
+def run_projects(tag, projects, versions=projrun.VERSIONS):
+    """projrun.run_batch with the richer type library written next to types.go."""
+    import shutil
+    build_cli()
+    moddir = os.path.join(WORK, tag, "mod")
+    shutil.rmtree(moddir, ignore_errors=True)
+    P.make_module(moddir)
+    jobs, index = [], []
+    for k, p in enumerate(projects):
+        root = os.path.join(moddir, "p%d" % k)
+        modpath = "verifproj/p%d" % k
+        P.render_project(p, root, modpath)
+        with open(os.path.join(root, "types", "more.go"), "w") as f:
+            f.write(render_types(p["typelib"]))
+        for v in versions:
+            cfgname = P.render_config(p, root, modpath, openapi=v)
+            jobs.append({"dir": root, "args": ["generate", "spec", "-c", cfgname]})
+            index.append((k, v))
+    results = P.run_cli_many(jobs)
+    out = [dict() for _ in projects]
+    for (k, v), r in zip(index, results):
+        root = os.path.join(moddir, "p%d" % k)
+        r = dict(r)
+        r["spec"] = P.load_json(os.path.join(root, "dist", "spec-%s.json" % v)) if r["exit"] == 0 else None
+        r["ops"] = specobs.doc_obs(r["spec"])
+        out[k][v] = r
+    return out
+
+
+SKELETON_KEYS = ["type", "items", "additionalProperties", "properties", "required", "allOf", "oneOf", "anyOf", "title",
+                 "description", "deprecated", "nullable", "$ref"]
+
+
+def norm_schema(sch, loc, pairs):
+    """Canonical skeleton of a schema object; the constraint keywords of every object are
+    appended to pairs[loc] (compared through prop_C11_tags, not here)."""
+    if sch is None:
+        return None
+    if not isinstance(sch, dict):
+        return {"_not_an_object": sch}
+    out = {}
+    if "$ref" in sch:
+        out["ref"] = sch["$ref"].split("/")[-1]
+    t = sch.get("type")
+    if isinstance(t, list):
+        t = sorted(t)
+        t = t[0] if len(t) == 1 else t
+    if t is not None:
+        out["type"] = t
+    if "items" in sch:
+        out["items"] = norm_schema(sch["items"], loc + ".items", pairs)
+    ap = sch.get("additionalProperties")
+    if isinstance(ap, dict):
+        out["additionalProperties"] = norm_schema(ap, loc + ".additionalProperties", pairs)
+    elif ap is not None:
+        out["additionalProperties"] = ap
+    if sch.get("properties"):
+        out["properties"] = {k: norm_schema(v, loc + ".properties." + k, pairs) for k, v in sch["properties"].items()}
+    if sch.get("required"):
+        out["required"] = sorted(set(sch["required"]))
+    for key in ("allOf", "oneOf", "anyOf"):
+        if sch.get(key):
+            out[key] = [norm_schema(x, "%s.%s[%d]" % (loc, key, i), pairs) for i, x in enumerate(sch[key])]
+    if sch.get("title"):
+        out["title"] = sch["title"]
+    if (sch.get("description") or "").strip():
+        out["description"] = sch["description"]
+    if sch.get("deprecated"):
+        out["deprecated"] = True
+    if sch.get("nullable"):
+        out["nullable"] = True
+    unknown = sorted(k for k in sch if k not in SKELETON_KEYS and k not in CONSTRAINT_KEYS)
+    if unknown:
+        out["_unknown"] = {k: sch[k] for k in unknown}
+    pairs[loc] = only_constraints(sch)
+    return out
+
+
+def project_doc(spec, ops):
+    """(skeleton, constraints by location) of one emitted document."""
+    pairs = {}
+    sk = {"ops": {}, "schemas": {}, "securitySchemes": (spec.get("components") or {}).get("securitySchemes"),
+          "info": spec.get("info"), "servers": spec.get("servers"), "security": spec.get("security")}
+    glob_sec = []
+    for req in spec.get("security") or []:
+        keys = sorted(req.keys())
+        glob_sec.append((keys[0], list(req[keys[0]] or [])) if len(keys) == 1 else ("<%d schemes>" % len(keys), []))
+    for o in ops:
+        key = "%s %s" % (o["verb"], o["path"])
+        loc = "op[%s]" % key
+        body = None
+        if o["body"]:
+            b = o["body"]
+            if b["kind"] == "json":
+                body = {"kind": "json", "required": b["required"],
+                        "schema": norm_schema(b["schema"], loc + ".body", pairs)}
+            elif b["kind"] == "form":
+                body = {"kind": "form", "required": sorted(b["required"]),
+                        "props": {k: norm_schema(v, "%s.form.%s" % (loc, k), pairs) for k, v in b["props"]}}
+            else:
+                body = b
+        sk["ops"][key] = {
+            "id": o["id"], "tags": o["tags"], "deprecated": o["deprecated"], "descr": o["descr"],
+            # an absent operation-level security inherits the document-level requirement
+            "security": o["security"] if o["security_present"] else glob_sec,
+            "params": [{"name": q["name"], "in": q["in"], "required": q["required"],
+                        "schema": norm_schema(q["schema"], "%s.param.%s.%s" % (loc, q["in"], q["name"]), pairs)}
+                       for q in o["params"]],
+            "body": body,
+            "responses": {r["code"]: {"descr": r["descr"], "has_content": r["has_content"],
+                                      "schema": norm_schema(r["schema"], "%s.resp.%s" % (loc, r["code"]), pairs)}
+                          for r in o["responses"]},
+            "default_response": o["default_noise"],
+        }
+    for name, sch in ((spec.get("components") or {}).get("schemas") or {}).items():
+        sk["schemas"][name] = norm_schema(sch, "schemas." + name, pairs)
+    return sk, pairs
+
+
+def tree_diff(a, b, loc, out):
+    if isinstance(a, dict) and isinstance(b, dict):
+        for k in sorted(set(a) | set(b)):
+            if k not in a or k not in b:
+                out.append((loc + "." + str(k), a.get(k, "<absent>"), b.get(k, "<absent>")))
+            else:
+                tree_diff(a[k], b[k], loc + "." + str(k), out)
+    elif isinstance(a, list) and isinstance(b, list) and len(a) == len(b):
+        for i, (x, y) in enumerate(zip(a, b)):
+            tree_diff(x, y, "%s[%d]" % (loc, i), out)
+    elif a != b:
+        out.append((loc, a, b))
+
+
+def site_sources(p):
+    """location prefix -> (go type, validator string) for every place a validator is applied."""
+    src = {}
+    for c in p["controllers"]:
+        for m in c["methods"]:
+            if m["hidden"]:
+                continue
+            path = re.sub(r"/+", "/", c["route"] + m["route"])
+            loc = "op[%s %s]" % (m["verb"], path)
+            for prm in m["params"]:
+                if prm["ctx"]:
+                    continue
+                ty = ("[]" if prm.get("slice") else "") + prm["type"]
+                wire = prm["alias"] or prm["name"]
+                # pipeline: non-pointer / path parameters get ",required" appended (no constraint effect)
+                if prm["loc"] == "body":
+                    src[loc + ".body"] = (ty, prm["validator"] or "")
+                elif prm["loc"] == "form":
+                    src["%s.form.%s" % (loc, wire)] = (ty, prm["validator"] or "")
+                else:
+                    src["%s.param.%s.%s" % (loc, prm["loc"], wire)] = (ty, prm["validator"] or "")
+    lib = p["typelib"]
+    for f in lib["fields"]:
+        jn = f["json"] or f["name"]
+        for prefix in ("schemas.ItemFull.properties.", "schemas.ItemFull.allOf[0].properties."):
+            src[prefix + jn] = (f["type"].lstrip("*"), f["validator"] or "")
+    return src
+
+
+def ref_usages(p):
+    """named type -> validator strings applied at places that reference it."""
+    use = {}
+    for loc, (ty, v) in site_sources(p).items():
+        if is_ref_type(ty):
+            use.setdefault(ty, []).append(v)
+    return use
+
+
+WRITES_ENUM = re.compile(r"(^|,)(enum(=|,|$)|oneof=[^,]*[^,\s])")
+
+
+def classify_doc_diffs(p, diffs, cfail, tag_classes):
+    """Attribute every difference to a class.  diffs: skeleton differences (loc, a, b);
+    cfail: locations whose constraint pair fails prop_C11_tags; tag_classes: (type, validator)
+    -> class names from the library layer.  Returns list of (class or None, loc, detail)."""
+    src = site_sources(p)
+    uses = ref_usages(p)
+    out = []
+    for loc, a, b in diffs:
+        if loc.endswith(".default_response"):
+            out.append(("default-response", loc, {"3.0": a, "3.1": b}))
+        else:
+            out.append((None, loc, {"3.0": a, "3.1": b}))
+    for loc, a, b in cfail:
+        cls = None
+        m = re.match(r"schemas\.(\w+)$", loc)
+        if loc in src:
+            cs = tag_classes.get(src[loc], [])
+            cls = cs[0] if cs else None
+        elif m and m.group(1) in ("ItemColor", "ItemLevel"):
+            name = m.group(1)
+            written = any(WRITES_ENUM.search(v or "") for v in uses.get(name, []))
+            e30 = set(json.dumps(x) for x in (a.get("enum") or []))
+            e31 = set(json.dumps(x) for x in (b.get("enum") or []))
+            if written and len(e30) != len(e31):
+                cls = "ref-write-through"
+            elif name == "ItemLevel":
+                cls = "enum-component-typing"
+        out.append((cls, loc, {"3.0": a, "3.1": b, "source": src.get(loc)}))
+    return out
+
+
+DOC_HEADER = """From Gleece Require Import Base.Bytes Model.Tags.
+From Coq Require Import String.
+Open Scope Z_scope.
+Definition holds (c : nat * constraints30 * doc31) : bool := let '(_, a, b) := c in prop_C11_tags (Ok a) (Ok b).
+"""
+
+
+def eval_constraint_pairs(pairs, tag="doc"):
+    """pairs: list of (j30, j31) constraint dicts.  Returns the indices failing prop_C11_tags."""
+    todo = [(i, a, b) for i, (a, b) in enumerate(pairs) if a or b]
+    if not todo:
+        return []
+    body = DOC_HEADER + "Definition cases : list (nat * constraints30 * doc31) :=\n [" + \
+        ";\n ".join("(%d%%nat, %s, %s)" % (i, json30_term(a), json31_term(b)) for i, a, b in todo) + "].\n" + \
+        "Definition failing := Eval vm_compute in map (fun c => fst (fst c)) (filter (fun c => negb (holds c)) cases).\n" \
+        "Print failing.\n"
+    return parse_nat_list(run_coq_file(PROP, tag, body), "failing")
+
+
+def compare_docs(p, obs):
+    """Relational oracle on the implementation pair.  Returns dict(status, diffs, cfail)."""
+    r30, r31 = obs["3.0.0"], obs["3.1.0"]
+    crashed = [v for v in projrun.VERSIONS if "panic:" in obs[v]["out"] or "goroutine " in obs[v]["out"]]
+    if crashed:
+        return {"status": "crash", "versions": crashed}
+    if r30["spec"] is None and r31["spec"] is None:
+        return {"status": "rejected-both"}
+    if r30["spec"] is None or r31["spec"] is None:
+        return {"status": "rejected-one", "emitted": "3.0.0" if r30["spec"] is not None else "3.1.0"}
+    sk30, c30 = project_doc(r30["spec"], r30["ops"])
+    sk31, c31 = project_doc(r31["spec"], r31["ops"])
+    diffs = []
+    tree_diff(sk30, sk31, "doc", diffs)
+    diffs = [(loc[len("doc."):] if loc.startswith("doc.") else loc, a, b) for loc, a, b in diffs]
+    locs = sorted(set(c30) | set(c31))
+    return {"status": "emitted", "diffs": diffs, "locs": locs, "c30": c30, "c31": c31}
+
+
+# ------------------------------------------------------------------ driver
+
+# always executed first: the witnesses of the refutation theorems and the replays of F4 / F9
+SEED_CASES = [
+    {"type": "int", "validator": "gt=5,gte=3"}, {"type": "string", "validator": "enum=a|b,enum=c"},
+    {"type": "string", "validator": "oneof=1 2"}, {"type": "int", "validator": "oneof=010"},
+    {"type": "string", "validator": "min=+5"}, {"type": "string", "validator": "max=0"},
+    {"type": "int", "validator": "gt=5,gt=abc"}, {"type": "[]string", "validator": "uniqueItems=true,uniqueItems=yes"},
+    {"type": "int", "validator": "oneof=x"}, {"type": "string", "validator": "min=abc"},
+    {"type": "int", "validator": "gt=abc"}, {"type": "[]string", "validator": "uniqueItems=yes"},
+    {"type": "string", "validator": "len=x"}, {"type": "[]int", "validator": "minItems=-1"},
+    {"type": "Color", "validator": "oneof=red blue", "component": {"type": "string", "enum": ["red", "blue", "green"]}},
+    {"type": "Color", "validator": "oneof=a", "component": None},
+    {"type": "string", "validator": "required,min=3,max=10,email,pattern=^[a-z]+$,oneof=a b"},
+    {"type": "int", "validator": "gte=0,lt=100,oneof=1 2 3"},
+]
+
+
+def case_public(c):
+    return {"type": c["type"], "validator": c["validator"], "component": c.get("component")}
+
+
+def impl_summary(o):
+    def side(sd):
+        return {k: sd.get(k) for k in ("status", "detail", "is_ref", "json", "comp_json") if sd.get(k) is not None}
+    return {"kind": o["kind"], "openapi-3.0": side(o["r30"]), "openapi-3.1": side(o["r31"])}
+
+
+def rule_names(v):
+    return [r.partition("=")[0] for r in v.split(",")]
+
+
+def tags_layer(res, rng, tier, known, replay_case):
+    if replay_case is not None:
+        cases = [replay_case]
+    else:
+        cases = [dict(c) for c in SEED_CASES]
+        corpus_file = os.path.join(CORPUS, PROP + ".json")
+        if os.path.exists(corpus_file):
+            cases += json.load(open(corpus_file))
+        cases += gen_tag_cases(rng, 1150 if tier == "quick" else 20000)
+    results = run_tags(cases)
+
+    def still_fails(c):
+        return not run_tags([c], "shrink")[0]["holds"]
+
+    failing, corr = {}, []
+    for i, r in enumerate(results):
+        ok_corr = r["agree30"] and r["agree31"] and r["render"] and r["render30_ok"]
+        if not r["holds"]:
+            failing.setdefault(tuple(r["classes"]), []).append(i)
+        elif not ok_corr:
+            corr.append(i)
+    reported = 0
+    # one KNOWN-FINDING line per listed class, with the shortest example that shows only that class if any
+    best = {}
+    for classes, idxs in failing.items():
+        for cl in classes:
+            for i in idxs:
+                key = (len(classes), len(cases[i]["validator"]), i)
+                if cl not in best or key < best[cl]:
+                    best[cl] = key
+    for classes, idxs in sorted(failing.items(), key=lambda kv: (len(kv[0]), kv[0])):
+        example = min(idxs, key=lambda i: len(cases[i]["validator"]))
+        if classes and all(cl in known for cl in classes):
+            for cl in classes:
+                ex = cases[best[cl][2]]
+                res.known(known[cl], "%s (validation converters: 3.0 and 3.1 constraints differ; e.g. %s `%s`)" % (
+                    cl, ex["type"], ex["validator"]))
+            continue
+        if reported >= 3:
+            continue
+        reported += 1
+        small = shrink_tag_case(cases[example], still_fails)
+        sr = run_tags([small], "shrink")[0]
+        unlisted = [cl for cl in sr["classes"] if cl not in known]
+        res.violation({
+            "kind": "property-fails-on-implementation", "layer": "validation converters (implrun tags)",
+            "input": case_public(small), "implementation": impl_summary(sr["impl"]),
+            "classes": sr["classes"], "classes_not_in_known_findings": unlisted,
+            "model_agrees": {"build30": sr["agree30"], "build31": sr["agree31"], "render31": sr["render"]},
+            "claim": "prop_C11_tags: the 3.0 constraint keywords, translated to the 3.1 dialect, equal the 3.1 "
+                     "keywords (format, bounds with exclusivity, lengths, items, pattern, uniqueness, enum set), "
+                     "and neither converter crashes",
+            "cases_in_this_class_this_run": len(idxs)})
+    if corr and not res.violations:
+        i = corr[0]
+        r = results[i]
+        which = "build30" if not r["agree30"] else "build31" if not r["agree31"] else \
+            "render31" if not r["render"] else "kin-openapi rendering of the 3.0 constraint fields"
+        res.violation({"kind": "correspondence", "obligation": "corr:Tags.%s" % which, "input": case_public(cases[i]),
+                       "implementation": impl_summary(r["impl"]), "raw_30": r["impl"]["r30"].get("raw"),
+                       "raw_31": r["impl"]["r31"].get("raw"),
+                       "note": "model and implementation disagree on %d case(s); the property oracle holds on the "
+                               "implementation pair for all of them" % len(corr)}, no_input=True)
+    # evidence
+    dist_rule, dist_kind, dist_out, dist_cls = {}, {}, {}, {}
+    distinct = set()
+    for c, r in zip(cases, results):
+        for nm in set(rule_names(c["validator"])):
+            dist_rule[nm if nm in ALL_RULES else "(other)"] = dist_rule.get(nm if nm in ALL_RULES else "(other)", 0) + 1
+        kd = "reference" if r["ref"] else r["impl"]["kind"]
+        dist_kind[kd] = dist_kind.get(kd, 0) + 1
+        oc = "%s/%s" % (r["impl"]["r30"]["status"], r["impl"]["r31"]["status"])
+        dist_out[oc] = dist_out.get(oc, 0) + 1
+        key = ("differs:" if not r["holds"] else "agrees:") + ("+".join(r["classes"]) or "guard-true")
+        dist_cls[key] = dist_cls.get(key, 0) + 1
+        j30 = only_constraints(r["impl"]["r30"].get("json") or r["impl"]["r30"].get("comp_json"))
+        j31 = only_constraints(r["impl"]["r31"].get("json") or r["impl"]["r31"].get("comp_json"))
+        if j30 or j31 or r["panicked"]:
+            distinct.add(json.dumps(case_public(c), sort_keys=True))
+    return {
+        "cases": len(cases), "distinct_nontrivial": len(distinct),
+        "model_agrees": sum(1 for r in results if r["agree30"] and r["agree31"] and r["render"] and r["render30_ok"]),
+        "oracle_failures": sum(len(v) for v in failing.values()),
+        "dist": {"by_rule_name": dist_rule, "by_kind": dist_kind, "by_outcome_30/31": dist_out,
+                 "by_guard_class": dist_cls},
+        "samples": [{"input": case_public(cases[i]), "implementation": impl_summary(results[i]["impl"]),
+                     "classes": results[i]["classes"], "oracle_holds": results[i]["holds"]}
+                    for i in (len(SEED_CASES) + 5, len(SEED_CASES) + 700) if i < len(cases)],
+    }
+
+
+def general_loc(loc):
+    """Location with the project-specific names removed (one KNOWN-FINDING line per kind of place)."""
+    loc = re.sub(r"^ops\.[A-Z]+ [^ ]*?\.(default_response|params|body|responses)", r"paths.*.*.\1", loc)
+    loc = re.sub(r"^op\[[^\]]*\]\.(param|form|body|resp)(\..*)?$", r"paths.*.*.\1", loc)
+    loc = re.sub(r"\.properties\.\w+", ".properties.*", loc)
+    return re.sub(r"\[\d+\]", "[..]", loc)
+
+
+def shrink_doc_project(p, pred):
+    import speccheck
+    cur = speccheck.shrink_project(p, pred)
+    changed = True
+    while changed:
+        changed = False
+        for k in range(len(cur["typelib"]["fields"])):
+            cand = copy.deepcopy(cur)
+            del cand["typelib"]["fields"][k]
+            if pred(cand):
+                cur, changed = cand, True
+                break
+    return cur
+
+
+def analyse_projects(projects, obs, tagprefix):
+    """Per project: list of (class or None, location, detail) + status."""
+    cmps = [compare_docs(p, o) for p, o in zip(projects, obs)]
+    # constraint pairs of all emitted documents through the Coq oracle at once
+    pairs, where = [], []
+    for k, c in enumerate(cmps):
+        if c["status"] != "emitted":
+            continue
+        for loc in c["locs"]:
+            pairs.append((c["c30"].get(loc), c["c31"].get(loc)))
+            where.append((k, loc))
+    failing = set(eval_constraint_pairs(pairs, tagprefix + "_pairs"))
+    # classes of every (type, validator) applied somewhere, from the library layer
+    srcs = sorted(set(tv for p in projects for tv in site_sources(p).values() if tv[1] and not is_ref_type(tv[0])))
+    tag_classes = {}
+    if srcs:
+        rr = run_tags([{"type": t, "validator": v} for t, v in srcs], tagprefix + "_src")
+        for tv, r in zip(srcs, rr):
+            tag_classes[tv] = r["classes"]
+    out = []
+    for k, (p, c) in enumerate(zip(projects, cmps)):
+        if c["status"] != "emitted":
+            out.append((c, []))
+            continue
+        cfail = [(loc, c["c30"].get(loc) or {}, c["c31"].get(loc) or {})
+                 for i, (kk, loc) in enumerate(where) if kk == k and i in failing]
+        out.append((c, classify_doc_diffs(p, c["diffs"], cfail, tag_classes)))
+    return out, len(pairs), sum(1 for a, b in pairs if a or b)
+
+
+def doc_layer(res, rng, tier, known, replay_project):
+    if replay_project is not None:
+        projects = [replay_project]
+    else:
+        n = 22 if tier == "quick" else 220
+        projects = [gen_doc_project(rng, diverge=(i % 3 == 2)) for i in range(n)]
+    obs = run_projects(PROP, projects)
+    analysed, npairs, npairs_nontrivial = analyse_projects(projects, obs, "doc")
+
+    def problems_of(p):
+        o = run_projects(PROP + "_shrink", [p])
+        (c, items), = analyse_projects([p], o, "shrink")[0]
+        return c, items, o[0]
+
+    status_count, class_count, rejected = {}, {}, []
+    reported = 0
+    for k, (c, items) in enumerate(analysed):
+        status_count[c["status"]] = status_count.get(c["status"], 0) + 1
+        if c["status"].startswith("rejected"):
+            lines = [l for l in obs[k]["3.0.0"]["out"].splitlines() + obs[k]["3.1.0"]["out"].splitlines()
+                     if "[ERROR]" in l or "[FATAL]" in l or "rror:" in l]
+            rejected.append({"status": c["status"], "why": [re.sub(r"^[0-9/: ]+", "", l)[:200] for l in lines[-2:]]})
+        todo = []
+        if c["status"] == "crash":
+            todo = [("nil-deref-panic", "cli", {"versions": c["versions"]})]
+        elif c["status"] == "rejected-one":
+            todo = [("one-sided-rejection", "cli", {"emitted_only": c["emitted"]})]
+        else:
+            todo = items
+        unexplained = []
+        for cls, loc, detail in todo:
+            class_count[str(cls)] = class_count.get(str(cls), 0) + 1
+            if cls is not None and cls in known:
+                res.known(known[cls], "%s (documents: 3.0 and 3.1 differ at %s)" % (cls, general_loc(loc)))
+            else:
+                unexplained.append((cls, loc, detail))
+        if unexplained and reported < 2:
+            reported += 1
+            want = set(cls for cls, _, _ in unexplained)
+
+            def pred(q):
+                cc, it, _ = problems_of(q)
+                if cc["status"] == "crash":
+                    return "nil-deref-panic" in want
+                if cc["status"] == "rejected-one":
+                    return "one-sided-rejection" in want
+                return any(cls in want and (cls is None or cls not in known) for cls, _, _ in it)
+            small = shrink_doc_project(projects[k], pred)
+            cc, it, o = problems_of(small)
+            res.violation({
+                "kind": "property-fails-on-implementation", "layer": "documents (real CLI, both versions)",
+                "input": small, "status": cc["status"],
+                "differences": [{"class": cls, "location": loc, "detail": d} for cls, loc, d in
+                                ([("nil-deref-panic", "cli", cc.get("versions"))] if cc["status"] == "crash" else it)][:12],
+                "cli": {v: {"exit": o[v]["exit"], "output": o[v]["out"][-1200:]} for v in projrun.VERSIONS},
+                "claim": "the 3.0.0 and the 3.1.0 document of one project agree after the dialect translation on "
+                         "paths, verbs, operationIds, tags, parameters, request bodies, responses, security and "
+                         "component schemas; differences outside the classes listed in known_findings.json"})
+    projrun.cleanup(PROP)
+    projrun.cleanup(PROP + "_shrink")
+    sample = None
+    for p, (c, items) in zip(projects, analysed):
+        if c["status"] == "emitted":
+            sample = {"project_controllers": [cc["name"] for cc in p["controllers"]],
+                      "typelib_fields": p["typelib"]["fields"],
+                      "constraint_locations": len(c["locs"]),
+                      "non_empty_constraint_pairs": {loc: {"3.0": c["c30"].get(loc), "3.1": c["c31"].get(loc)}
+                                                     for loc in c["locs"] if c["c30"].get(loc) or c["c31"].get(loc)},
+                      "differences": [{"class": cls, "location": loc} for cls, loc, _ in items]}
+            break
+    nontrivial = sum(1 for (c, _) in analysed if c["status"] == "emitted" and
+                     any(c["c30"].get(loc) or c["c31"].get(loc) for loc in c["locs"]))
+    return {"projects": len(projects), "cli_runs": 2 * len(projects), "status": status_count,
+            "difference_classes": class_count, "rejected_projects": rejected[:6], "constraint_pairs": npairs,
+            "constraint_pairs_nontrivial": npairs_nontrivial, "nontrivial_projects": nontrivial, "sample": sample,
+            "validators_applied": sum(1 for p in projects for tv in site_sources(p).values() if tv[1]),
+            "operations": sum(len(o["3.0.0"]["ops"] or []) for o in obs)}
+
+
+def main():
+    a, seed = args_for(PROP)
+    res = Result(PROP, a.tier, seed)
+    rng = random.Random(seed)
+    build_coq()
+    build_harness()
+    proof_coverage(PROP, res)
+    known = known_index()
+    replay_case = replay_project = None
+    if a.replay:
+        rp = json.load(open(a.replay))
+        if isinstance(rp.get("input"), dict) and "controllers" in rp["input"]:
+            replay_project = rp["input"]
+        else:
+            replay_case = rp["input"]
+    ta = tags_layer(res, rng, a.tier, known, replay_case) if replay_project is None else None
+    db = doc_layer(res, rng, a.tier, known, replay_project) if replay_case is None else None
+    res.coverage.update({
+        "evaluations": (ta["cases"] if ta else 0) + (db["cli_runs"] if db else 0),
+        "distinct_nontrivial": (ta["distinct_nontrivial"] if ta else 0) + (db["nontrivial_projects"] if db else 0),
+        "rule": "(a) seeded (Go type, validator string) cases: every rule name both converters know x string / integer "
+                "/ number / array / other kinds x well-formed, boundary and malformed values, interacting pairs, "
+                "random multi-rule strings with repeats, references with and without an existing component; "
+                "non-trivial = some constraint keyword is written or a converter crashes; distinct = distinct cases. "
+                "(b) seeded abstract projects (project.gen_project + validator strings on path / query / header / "
+                "form parameters, enum-typed parameters, a generated struct with tagged fields, embedding, enums of "
+                "string and int base) through the real CLI for 3.0.0 and 3.1.0; non-trivial = both documents "
+                "emitted and some schema carries a constraint keyword",
+        "samples": ([] if not ta else ta["samples"]) + ([] if not db or not db["sample"] else [db["sample"]]),
+        "traces_validated_against_impl": ta["model_agrees"] if ta else 0,
+        "property_oracle_failures": ta["oracle_failures"] if ta else 0,
+        "input_distribution": {"validation_converters": ta["dist"] if ta else None,
+                               "documents": {k: v for k, v in (db or {}).items() if k != "sample"}},
+        "known_finding_classes_listed": sorted(known),
+    })
+    res.assumptions += [
+        "strconv.ParseFloat (non-integer literals and integers above 2^53) and libopenapi's printing of enum "
+        "yaml nodes are oracles: the harness supplies the library's answers for the strings of each case, the "
+        "theorems quantify over all oracles",
+        "strings.Fields is modelled for ASCII white space (the generators do not emit U+0085 / U+00A0)",
+        "kin-openapi / libopenapi rendering and validation, go/packages discovery: exercised, not modelled "
+        "(the rendering of the constraint keywords is compared with the model's render31 / dialect on every case)",
+        "operation-level agreement (paths, verbs, ids, tags, parameters, bodies, responses, security) has no "
+        "separate theorem: both emitters are described by the one model Spec.spec_ops, tied to each by C01/C04/C06; "
+        "here the implementation pair is compared directly",
+    ]
+    sys.exit(res.finish())
+
+
+if __name__ == "__main__":
+    main()
